@@ -324,6 +324,14 @@ class EngineC08(HistEngine):
                 closure.add(n)
                 if n in defs:
                     todo += re.findall(r"\bhex_(\w+)\(", defs[n].split("{", 1)[1])
+            if c.get("form") not in ("const_cond_calls", "fixed"):
+                unrouted = sorted(u for u in set(c["uses"]) if u in funcs and u in registered and u not in need
+                                  and re.search(r"\b%s\(" % re.escape(u), c["text"]))
+                if unrouted:
+                    # a routine registered through the public API is called in the source, but the emitted text does not call it
+                    V.append(Violation("C08", "registration", "call-not-routed-to-routine", cfg,
+                                       {"caller": c["text"], "routines": unrouted, "calls_emitted": sorted(need)[:8]}, step))
+                    continue
             undefined = sorted(n for n in closure if n not in defs)
             if undefined:
                 # the emitted text calls hex_<n>(...) but no registered routine is defined under that symbol
